@@ -3,3 +3,5 @@
 S=${VERIF_SCRATCH:-/var/tmp}/jv-cc-$$; rm -rf $S
 python3 "$(dirname "$0")/gen.py" $S ${1:-model} >/dev/null && (cd $S && CARGO_NET_OFFLINE=true cargo kani --only-codegen -Z stubbing --target-dir $S/t 2>&1 | grep -a "^error" -A8 | head -60)
 rm -rf $S
+# native (playback) build must compile too: assertion messages are format strings there
+if grep -n '"[^"]*[{}][^"]*"' "$(dirname "$0")"/../harness/*.rs | grep -q "assert!\|cover!"; then echo "WARNING: brace in an assertion message (breaks the native replay build)"; fi
